@@ -378,33 +378,42 @@ def if_element(prog, chk):
     chk.ob(lit == "test", "A13.if-skeleton", "IfElement:test-attr", b.where(), "the condition is the `test` attribute", f"the condition is read from `{lit}`")
     # otherwise: empty output
     empties = 0
+    empty_exits, ok_exits = set(), set()
     for x, i, s in b.all_stmts():
         if "lhs" in s and s["lhs"][0] == 0 and not s["lhs"][1] and s["rv"].get("variant") == "Ok":
+            ok_exits.add(x)
             tup = b.single_def(op_place(s["rv"]["ops"][0])[0]) if op_place(s["rv"]["ops"][0]) else None
             if tup and tup[1] != R.TERM and tup[2]["k"] == "aggr" and tup[2]["ak"] == "tuple":
                 p0, _ = R.call_origin_path(b, tup[2]["ops"][0])
                 if p0 == "svgdx::events::OutputList::new":
                     empties += 1
-    chk.ob(empties == 1, "A13.if-skeleton", "IfElement:else-empty", b.where(), "when the test is zero <if> returns an empty event list", "the false path of <if> does not return an empty list")
+                    empty_exits.add(x)
+    # every successful exit reachable from the false edge of the test is an empty-list exit (however many of them the
+    # function has: "no content" and "test is zero" may share one or not)
+    false_ok = False
+    if len(conds) == 1:
+        edges = _cond_edges(b, conds[0][1])
+        if edges:
+            fr = b.reach([edges[1]])
+            false_ok = bool(fr & empty_exits) and (fr & ok_exits) <= empty_exits and not (fr & {bb for (bb, t, c) in bodies})
+    chk.ob(false_ok, "A13.if-skeleton", "IfElement:else-empty", b.where(), "when the test is zero <if> returns an empty event list", "the false path of <if> does not return an empty list")
 
 
 def condition_truth(prog, chk):
     ec = prog.body("svgdx::expression::eval_condition")
     chk.touch(ec)
-    ok = False
-    detail = ""
-    for (bb, t, c) in ec.call_sites(lambda c: c.path.startswith("std::result::Result") and c.path.endswith("::map")):
-        cid = R.closure_id_of_operand(ec, t["args"][1])
-        cb = prog.bodies.get(cid)
-        if cb is None:
-            continue
+    # every comparison of a float with a constant made by eval_condition (itself or in a closure it passes to map):
+    # there is exactly one kind, `!= 0`
+    cmps = []
+    for cb in [ec] + [x for x in prog.bodies.values() if x.root == ec.id]:
         for x, i, s in cb.all_stmts():
             rv = s.get("rv")
-            if rv and rv["k"] == "binop" and "lhs" in s and s["lhs"][0] == 0:
+            if rv and rv["k"] == "binop" and rv["op"] in ("Ne", "Eq", "Gt", "Ge", "Lt", "Le"):
                 k = op_const(rv["b"]) or op_const(rv["a"]) or {}
-                zero = k.get("float") in ("0.0", "-0.0", "0")
-                ok = rv["op"] == "Ne" and zero
-                detail = f"{rv['op']} {k.get('float')}"
+                if "float" in k:
+                    cmps.append((rv["op"], k.get("float")))
+    ok = bool(cmps) and all(op == "Ne" and fl in ("0.0", "-0.0", "0") for op, fl in cmps)
+    detail = ", ".join(f"{op} {fl}" for op, fl in cmps) or "no comparison with a constant"
     chk.ob(ok, "A15.condition-truth", "eval_condition", ec.where(), "a condition is true iff its numeric value is != 0 (negative values are true)", f"eval_condition maps the value with `{detail}` instead of `!= 0`")
 
 
